@@ -2,7 +2,7 @@
 From Coq Require Import ZArith List Bool Lia.
 Import ListNotations.
 Require Import PV.Model.GraphAlg PV.Proofs.GraphSpec PV.Proofs.GraphBounded PV.Proofs.MisProofs.
-Require Import PV.Proofs.ParMisProofs PV.Proofs.ParMisTerm PV.Proofs.CmisProofs.
+Require Import PV.Proofs.ParMisProofs PV.Proofs.ParMisTerm PV.Proofs.CmisProofs PV.Proofs.CompProofs.
 
 (* serial maximal independent set: for EVERY symmetric graph in CSR form, of any size, and any
    three distinct codes: every vertex is decided, the set is independent and maximal *)
@@ -76,6 +76,20 @@ Theorem C18_coloring_mis_proper : forall (N : nat) (Ap Aj : list Z),
     (forall i j, (0 <= i < Z.of_nat N)%Z -> In j (nbrs Ap Aj i) -> j <> i -> get x j <> get x i).
 Proof. exact coloring_mis_correct. Qed.
 Print Assumptions C18_coloring_mis_proper.
+
+(* connected_components (depth-first search with an explicit stack), EVERY symmetric graph of any size: the
+   model returns within its fuel, every vertex gets a label in [0, C), every label is used, and two vertices
+   carry the same label exactly when they are connected ([conn] = reflexive-transitive closure of adjacency) *)
+Theorem C18_connected_components_correct : forall (N : nat) (Ap Aj : list Z),
+  (forall i, (0 <= i < Z.of_nat N)%Z -> forall j, In j (nbrs Ap Aj i) -> (0 <= j < Z.of_nat N)%Z) ->
+  (forall i j, (0 <= i < Z.of_nat N)%Z -> In j (nbrs Ap Aj i) -> In i (nbrs Ap Aj j)) ->
+  exists comp C, connected_components (Z.of_nat N) Ap Aj = Some (comp, C) /\
+    length comp = N /\
+    (forall k, (0 <= k < Z.of_nat N)%Z -> (0 <= get comp k < C)%Z) /\
+    (forall a, (0 <= a < C)%Z -> exists k, (0 <= k < Z.of_nat N)%Z /\ get comp k = a) /\
+    (forall i j, (0 <= i < Z.of_nat N)%Z -> (0 <= j < Z.of_nat N)%Z -> (get comp i = get comp j <-> conn N Ap Aj i j)).
+Proof. exact connected_components_correct. Qed.
+Print Assumptions C18_connected_components_correct.
 
 (* bounded theorems: ALL symmetric graphs on <= 4 vertices (with and without stored diagonal),
    all weight vectors over {0,1,2} (ties included), all seeds / centre sets; the models never
